@@ -596,6 +596,47 @@ fn powers(m: &mut M, n: u64) {
     }
 }
 
+/// every exponent of the format (C06, C07): power-of-two high words - where the admissible low word changes with
+/// its sign - with opposite-sign low words at the quarter-ulp limit and in the subnormal range, compared with
+/// their neighbours, through the validity-dependent operations (comparisons, min, max, signum, is_valid)
+fn pow2_sweep(m: &mut M, n: u64) {
+    let mut deal = Deal { idx: 0, n: n.max(1), slice: m.slice };
+    for e in -1021..=1023 {
+        for s in [1.0, -1.0] {
+            let h = s * pow2(e);
+            let quarter = pow2(e - 54);
+            let mut los = vec![-s * quarter, -s * next_down_mag(quarter), -s * pow2(-1074), -s * pow2(-1023), s * pow2(e - 53), -s * next_up_mag(quarter)];
+            los.retain(|x| x.is_finite() && *x != 0.0);
+            for lo in los {
+                if !deal.take() {
+                    continue;
+                }
+                m.group("lattice");
+                m.call("base", "no_overlap", "fn", None, &[A::F(h), A::F(lo)]);
+                // built by the error-free sum, which does not consult the validity predicate (a checked constructor
+                // that wrongly rejects the pair would otherwise hide it from the comparisons below)
+                m.call("arith", "new_add", "inh", Some(0), &[A::F(h), A::F(lo)]);
+                let t = m.tf(0);
+                if t.hi().to_bits() != h.to_bits() || t.lo().to_bits() != lo.to_bits() {
+                    continue;
+                }
+                m.load(1, h, 0.0);
+                m.load(2, s * next_down_mag(pow2(e)), 0.0);
+                m.call("base", "is_valid", "inh", None, &[A::R(0)]);
+                for (x, y) in [(0, 1), (1, 0), (0, 2), (2, 0)] {
+                    for op in ["lt", "le", "eq", "pcmp"] {
+                        m.call("base", op, "op", None, &[A::R(x), A::R(y)]);
+                    }
+                }
+                m.call("base", "min", "inh", Some(3), &[A::R(0), A::R(1)]);
+                m.call("base", "max", "inh", Some(3), &[A::R(2), A::R(0)]);
+                m.call("base", "signum", "inh", Some(3), &[A::R(0)]);
+                m.call("base", "abs", "inh", Some(3), &[A::R(0)]);
+            }
+        }
+    }
+}
+
 pub fn run(m: &mut M, _r: &mut Rng, family: &str, n: u64) -> bool {
     match family {
         "lattice_add" => binary(m, "add", n, &[(0, 0), (-1000, 0), (999, 0), (-1020, 0)]),
@@ -608,6 +649,7 @@ pub fn run(m: &mut M, _r: &mut Rng, family: &str, n: u64) -> bool {
         "lattice_new" => new_words(m, n),
         "lattice_rem" => rems(m, n),
         "exp_nodes" => exp_nodes(m, n),
+        "pow2_sweep" => pow2_sweep(m, n),
         "lattice_pow" => powers(m, n),
         "lattice_exp" => functions(m, n, "exp"),
         "lattice_log" => functions(m, n, "log"),
